@@ -18,4 +18,13 @@ def decodeKeepsFlags : Bool := true
     answer class (true since the `fix:` commit for C20). -/
 def answerKeepsP : Bool := true
 
+/-- `work_read_queue`: the garbage branch only discards frames with a non-zero
+    header length (true since the `fix:` commit; on the pinned tree a zero length made the reader spin). -/
+def frameSkipZeroGuard : Bool := true
+
+/-- `work_read_queue`: after discarding an undecodable frame the "incomplete
+    header → wait" test still runs (true since the `fix:` commit; the pinned tree `continue`d
+    past it and then closed the connection on a short remainder). -/
+def frameFallThrough : Bool := true
+
 end DV.Config
